@@ -39,7 +39,7 @@ Quiet(st, x) == st.v[x].alive /\ st.v[x].h.k = "none"
 
 (* A1: an offered value that the call rejects *)
 Rejected(st, src, xs) ==
-  IF src = "raw" THEN Out([st EXCEPT !.ext = @ \o xs], "panic", <<>>, <<>>)
+  IF src \in {"raw", "typeless", "sizeless"} THEN Out([st EXCEPT !.ext = @ \o xs], "panic", <<>>, <<>>)
   ELSE Out(st, "panic", <<>>, Ids(xs))
 
 ---------------------------------------------------------------------------
